@@ -77,7 +77,7 @@ static void do_getopt(char *opts_hex, char *argv_spec)
             if (c == EOF) { free(ebuf); break; }
             fprintf(ev, "%s%d:", first ? "" : ";", c & 0xff);
             first = 0;
-            if (optarg && c != '?') {
+            if (optarg && elen == 0) {   /* after an error return optarg is stale and main never looks at it */
                 size_t k, n = strlen(optarg);
                 fputc('S', ev);
                 if (n == 0) fputc('-', ev);
